@@ -15,6 +15,7 @@ mod mux;
 mod srv;
 mod wsx;
 mod life;
+mod w5;
 
 fn main() {
     let args: Vec<String> = std::env::args().collect();
@@ -45,6 +46,7 @@ fn main() {
         "ws-c16" => wsx::c16(&a),
         "ws-c17" => wsx::c17(&a),
         "ws-c15" => life::run(&a),
+        "w5" => w5::run(&a),
         other => {
             eprintln!("unknown engine {other}");
             2
